@@ -782,20 +782,27 @@ static char *detect_include_guard(Token *tok) {
   if (!is_hash(tok) || !equal(tok->next, "define") || !equal(tok->next->next, macro))
     return NULL;
 
-  // Read until the end of the file.
+  // The #endif that matches the #ifndef must be the last thing in the
+  // file, and the group must not have an #else or #elif part.
+  int depth = 0;
+
   while (tok->kind != TK_EOF) {
     if (!is_hash(tok)) {
       tok = tok->next;
       continue;
     }
 
-    if (equal(tok->next, "endif") && tok->next->next->kind == TK_EOF)
-      return macro;
-
-    if (equal(tok, "if") || equal(tok, "ifdef") || equal(tok, "ifndef"))
-      tok = skip_cond_incl(tok->next);
-    else
-      tok = tok->next;
+    Token *dir = tok->next;
+    if (equal(dir, "if") || equal(dir, "ifdef") || equal(dir, "ifndef")) {
+      depth++;
+    } else if (equal(dir, "endif")) {
+      if (depth == 0)
+        return (dir->next->kind == TK_EOF) ? macro : NULL;
+      depth--;
+    } else if (depth == 0 && (equal(dir, "else") || equal(dir, "elif"))) {
+      return NULL;
+    }
+    tok = tok->next;
   }
   return NULL;
 }
